@@ -50,9 +50,26 @@ func withShapes(pd *PropDef) {
 	}
 }
 
+// withGenEdge adds the generation-edge history (genedge.go) to a property, on every 8th case.
+func withGenEdge(pd *PropDef) {
+	prev := pd.Extra
+	pd.Extra = func(it *Interp, ops []Op) {
+		if prev != nil {
+			prev(it, ops)
+		}
+		if h := opsHash(ops); h%8 == 1 {
+			genEdgeCheck(h)
+			it.count("generation-edge-history")
+		}
+	}
+}
+
 func applyDefaults() {
 	for _, id := range []string{"C01", "C11", "C15"} {
 		withShapes(Props[id])
+	}
+	for _, id := range []string{"C02", "C17"} {
+		withGenEdge(Props[id])
 	}
 	for id, pd := range Props {
 		if pd.Profile.Bulk == 0 {
@@ -196,7 +213,7 @@ func init() {
 	}
 	Props["C09"] = &PropDef{
 		ID:       "C09",
-		Profile:  &Profile{Name: "inspect", W: with(obsW, "dumpLoad", 6, "obsNew", 12, "obsReg", 10, "addBatch", 5, "removeBatch", 5, "exchangeBatch", 4, "setRelBatch", 5, "removeEntities", 5, "newBatch", 6, "filterNew", 5), MaxEnts: 20, MinOps: 10, MaxOps: 80, RelBias: 40, ObsPrefix: 4},
+		Profile:  &Profile{Name: "inspect", W: with(obsW, "scenario", 6, "dumpLoad", 6, "obsNew", 12, "obsReg", 10, "addBatch", 5, "removeBatch", 5, "exchangeBatch", 4, "setRelBatch", 5, "removeEntities", 5, "newBatch", 6, "filterNew", 5), MaxEnts: 20, MinOps: 10, MaxOps: 80, RelBias: 40, ObsPrefix: 4},
 		Policies: []Policy{{}},
 		Opt:      Options{DeepEvery: 20, Events: true, Inspect: true},
 		Rule: genNote + "as C08, and every observer callback inspects the world: reported entity alive and affected, every entity of the expected state appears exactly once in a Filter0 query, " +
